@@ -359,11 +359,14 @@ def _execute(sc, store):
             _counter["limit"] = None
             bump("link_line_events", _counter["n"])
 
-    for si, st in enumerate(sc["steps"]):
+    sc0 = sc
+    for si, st in enumerate(sc0["steps"]):
         op = st["op"]
         gen = st["gen"]
-        if gen >= len(sc["gens"]):
+        if gen >= len(sc0["gens"]):
             continue
+        sc = gen16.view(sc0, gen)
+        mods = sc["modules"]
         if gen != cur_gen:
             cur_gen = gen
             variants = {}
@@ -372,6 +375,8 @@ def _execute(sc, store):
             canon_by_state = {}
             if gen > 0:
                 bump("store_generation_2")
+                if sc0["gens"][gen].get("rot"):
+                    bump("store_generation_2_names_rotated")
         if op == "compile":
             m = st["mod"]
             if m >= nm:
